@@ -225,6 +225,7 @@ func RepExprs(yield func(name string, x X)) {
 	yield("array-empty", X{Toks: []Tok{kw("ARRAY"), {S: "[", Call: true}, pt("]")}, Full: []Tok{kw("ARRAY"), {S: "[", Call: true}, pt("]")},
 		N: &ast.ArrayConstructorExpression{}, P: PPrimary, Feat: []string{"expr.array", "expr.array.empty"}})
 	yield("array-one", Array([]X{Col("c1")}))
+	yield("array-subquery", ArraySub(simpleSel("t8")))
 	yield("array-nested-empty", Array([]X{Array([]X{Int("1")}), X{Toks: []Tok{kw("ARRAY"), {S: "[", Call: true}, pt("]")}, Full: []Tok{kw("ARRAY"), {S: "[", Call: true}, pt("]")},
 		N: &ast.ArrayConstructorExpression{}, P: PPrimary, Feat: []string{"expr.array", "expr.array.empty"}}}))
 	// the optional clauses of a call in combination (each carries names of its own)
